@@ -54,3 +54,29 @@ Example C12_nonvacuous :
   wf_marks [Plain 60; Alt (s ":>") 93]%N = false /\
   In (s "||", s "OR") all_ops /\ In (s "??!|") (respellings (s "||")) /\ reads_as (s "??!|") (s "||") = true.
 Proof. vm_compute. repeat split; auto 60. Qed.
+
+(* ---- line/offset parametricity of the whole lexer model (Proofs/LineShift.v): the tokenizer never branches on the line
+   number or the raw offset, it only records them *)
+From NV Require Import Proofs.LineShift Proofs.LineShiftCor.
+(* a line splice of either form in front of ANY text: the whole token sequence of the text follows, kinds, values and
+   columns identical, every line one lower, raw spans shifted by the length of the splice; a crash stays the same crash *)
+Theorem C12_splice_then_text_items : forall uw ud sp src items xf, sp = splice1 \/ sp = splice2 ->
+  lex uw ud src = Ok (items, xf) ->
+  lex uw ud (sp ++ src) =
+    Ok (ISkip 0 (List.length sp) :: map (sh_item 1 (List.length sp)) items, shl 1 (List.length sp) xf).
+Proof. exact splice_then_text_items. Qed.
+Print Assumptions C12_splice_then_text_items.
+
+Theorem C12_splice_then_text_tokens : forall uw ud sp src items xf items' xf', sp = splice1 \/ sp = splice2 ->
+  lex uw ud src = Ok (items, xf) -> lex uw ud (sp ++ src) = Ok (items', xf') ->
+  map (fun t => (t_type t, t_val t)) (tokens_of items') = map (fun t => (t_type t, t_val t)) (tokens_of items) /\
+  map t_col (tokens_of items') = map t_col (tokens_of items) /\
+  map t_line (tokens_of items') = map (fun t => t_line t + 1) (tokens_of items).
+Proof. exact splice_then_text_tokens. Qed.
+Print Assumptions C12_splice_then_text_tokens.
+
+Theorem C12_splice_then_text_crash : forall uw ud sp src e, sp = splice1 \/ sp = splice2 ->
+  lex uw ud src = Crash e -> lex uw ud (sp ++ src) = Crash e.
+Proof. exact splice_then_text_crash. Qed.
+Print Assumptions C12_splice_then_text_crash.
+
